@@ -38,6 +38,8 @@ let kv_of_tok t =
 let query_of_tok t = List.map kv_of_tok (split_on_char_ne '&' t)
 let str_of_ascii s = List.map (fun c -> n_of_int (Char.code c)) (List.of_seq (String.to_seq s))
 let tok_of_query q =
+  (* url.Values.Encode order: keys sorted (hex order = byte order), values of one key in order *)
+  let q = List.stable_sort (fun (k1, _) (k2, _) -> compare (hex_of_str k1) (hex_of_str k2)) q in
   match q with
   | [] -> "_"
   | _ -> String.concat "&" (List.map (fun (k, v) ->
@@ -97,10 +99,10 @@ let () =
     | [id; "S"; kd; its; cap; path; q; m; extra; flt; fh; fa] ->
       let d = { d_m = nat_of_int (int_of_string m); d_extra = query_of_tok extra; d_filter = bool_tok flt;
                 d_fhdr = str_of_hex fh; d_fann = str_of_hex fa; d_doc_len = N0; d_pad = N0 } in
-      let ((items, more), lq) = reg_page (items_of_tok its) (nat_of_int (int_of_string cap))
+      let ((items, more), lq) = reg_page (kind_of_tok kd) (items_of_tok its) (nat_of_int (int_of_string cap))
           { u_path = str_of_hex path; u_query = query_of_tok q } d in
       Printf.printf "%s %s %d %s\n" id (tok_of_items items) (if more then 1 else 0)
-        (if more then tok_of_query (qcanon lq) else "_")
+        (if more then tok_of_query lq else "_")
     | [id; "L"; cmp; h] ->
       (match parse_link (str_of_hex h) with
        | LNone -> Printf.printf "%s NONE\n" id
